@@ -521,7 +521,7 @@ def r6(R):
     for bb, i, pl, rv, st in b.assigns():
         if rv["rv"] == "binop" and rv["op"] == "Eq" and any(F.const_int(o) == 64 for o in (rv["a"], rv["b"])) and not pl["p"]:
             for bb2, t in b.terms():
-                if t["t"] == "switch" and F.op_local(t["discr"]) == pl["l"]:
+                if t["t"] == "switch" and b.reads(t["discr"], pl["l"]):
                     at_regions.append(t["otherwise"])
     for bb, t in b.terms():
         if t["t"] == "switch":
